@@ -72,19 +72,21 @@ ADDENDA = {
     "C01": " Evaluated on the sync and the async world (A/ obligations). Also: the stream route of copy/move opens the source before it creates the destination; optional native two-path operations of the in-memory backend must establish destination-parent-is-a-directory themselves; PhysicalFS::exists never fails.",
     "C02": " Also: PhysicalFS::exists has no Err return (the map lookup cannot fail), the in-memory read/write handles satisfy the cursor rules of C14, the stream copy route opens the source before creating the destination.",
     "C03": " Evaluated on both worlds. Also: merged-listing rules (what a listing hides is exactly what was removed), source-before-destination in the stream copy route, two-path row of Table M (whole-map replacement counts as insertion).",
-    "C04": " Evaluated on both worlds (async writer publication incl. the flush clause, async copy-up direction, async session start/length/routing).",
+    "C04": " Evaluated on both worlds (async writer publication incl. the flush clause, async copy-up direction, async session start/length/routing). The writer's buffer is moved out only on the drop path (close-then-drop cannot publish an emptied buffer); whatever a write session or an overlay copy creates ends with the path's deletion marker absent.",
     "C05": " Evaluated on both worlds; native two-path operations of the in-memory backends must place entries below a directory.",
     "C06": " join hands its argument to the shared normaliser unchanged (no trimming / prefix stripping in the wrapper), both path types.",
-    "C07": " Shares C06's join pass-through rule (listed children never pass the join wrapper).",
-    "C08": " Also: a copy-up is an independent copy — (Async)PhysicalFS::copy_file performs exactly fs::copy (no hard link / rename).",
-    "C09": " Evaluated on both worlds (Table U, resolver, listing, materialisation, marker protocol of AsyncOverlayFS).",
-    "C10": " Evaluated on both worlds; remove_dir_all dispatches children by their own type and removes the directory last.",
+    "C07": " Shares C06's join pass-through rule (listed children never pass the join wrapper). The PhysicalFS translator joins the path argument itself (at most without its leading '/'): no rewriting after normalisation.",
+    "C08": " Also: a copy-up is an independent copy — (Async)PhysicalFS::copy_file performs exactly fs::copy (no hard link / rename). The in-crate backends' observing methods issue no mutating call (known finding: MemoryFS::open_file bumps the access time); native fast paths of the path layer run only under Arc::ptr_eq.",
+    "C09": " Evaluated on both worlds (Table U, resolver, listing, materialisation, marker protocol of AsyncOverlayFS). Layer paths are joined relative to the layer; the listing starts with a resolver lookup and can skip a shadowed non-directory entry; append_file resolves its target before materialising parents; materialisation depends only on the union lookup.",
+    "C10": " Evaluated on both worlds; remove_dir_all dispatches children by their own type and removes the directory last. Layer/marker paths are joined relative to the write layer; an overlay override of copy_file/move_file/move_dir must leave the destination's marker absent.",
     "C11": " Evaluated on both worlds; source opened before destination created in the stream route; two-path row of Table M.",
-    "C12": " with_path stores its argument unconditionally (mutate-self and struct-update shapes).",
-    "C16": " Evaluated on MemoryFS (std RwLock) and AsyncMemoryFS (async_std RwLock: guard holder found by type, regions across .await). Also: a removal/insertion is decided inside its own critical section (lookup under the same guard or own outcome checked); publication happens before flush/drop returns.",
+    "C12": " with_path stores its argument unconditionally (mutate-self and struct-update shapes). io::Error-carrying kinds are constructed only in error.rs; overlay setters run nothing with another error class in front of the delegation; async PhysicalFS create_dir classification.",
+    "C16": " Evaluated on MemoryFS (std RwLock) and AsyncMemoryFS (async_std RwLock: guard holder found by type, regions across .await). Also: a removal/insertion is decided inside its own critical section (lookup under the same guard or own outcome checked); publication happens before flush/drop returns. An async guard is not held across an await (other than always-ready in-memory Cursor operations).",
     "C17": " Evaluated on both worlds for backends and adapters. Also: the DirectoryExists tolerance is unconditional (no Err return reachable from that arm before the next attempt); PhysicalFS's occupant probe runs after the failed mkdir.",
+    "C13": " The callee table includes integer methods that inherit the caller's overflow checks (iN::abs, pow, div_euclid, ...).",
+    "C18": " The normalising step strips exactly the leading separator; EmbeddedFS values are built only by the index builder (no derived/second constructor).",
     "C19": " Evaluated on both worlds. Also: exact round-trip shape (stored = argument, reported = field, up to Some/Into/Clone — no filter or sentinel); an overlay setter that copies up must carry the other timestamps over.",
-    "C20": " Also: the kind create_dir_all tolerates (DirectoryExists) is built only under a positive directory test of the occupant (overlay, memory, physical; both worlds); stream typestate of the async walk (failed future not kept, error item yielded once).",
+    "C20": " Also: the kind create_dir_all tolerates (DirectoryExists) is built only under a positive directory test of the occupant (overlay, memory, physical; both worlds); stream typestate of the async walk (failed future not kept, error item yielded once). Iterator::flatten over Result items is a discarding consumer.",
 }
 NA_REASON = "check not implemented yet (build in progress); design in DESIGN.md"
 
